@@ -137,12 +137,20 @@ def mask_for(gsrc, gdst, m):
     return flat.reshape(tuple(gdst.data_shape), order=gdst.order)
 
 
+def safe(f, *a):
+    """a comparison of two grids must answer, never raise; an exception is reported as an observable"""
+    try:
+        return bool(f(*a))
+    except Exception as e:  # noqa
+        return f"raised {type(e).__name__}: {e}"[:200]
+
+
 def run_pair(case):
     gs, gd = gu.build_grid(case["src"]), gu.build_grid(case["dst"])
     x, m = src_array(case, gs)
     out = {"gs": gs, "gd": gd, "x": x, "m": m}
-    out["compatible"] = bool(gs.compatible_with(gd))
-    out["eq"] = bool(gs == gd)
+    out["compatible"] = safe(gs.compatible_with, gd)
+    out["eq"] = safe(gs.__eq__, gd)
     masked = case["masked"]
     try:
         if case["via"] == "direct":
@@ -230,8 +238,9 @@ def same_values(la, lb):
 
 def oracle_pair(case, impl):
     gs, gd, x, m = impl["gs"], impl["gd"], impl["x"], impl["m"]
-    if not impl["compatible"]:
-        return ("two layouts of the same geometry with the same data location are compatible", {"compatible": False})
+    if impl["compatible"] is not True:
+        return ("two layouts of the same geometry with the same data location are compatible",
+                {"compatible": impl["compatible"]})
     if "err" in impl:
         return ("data between compatible grids is converted and delivered", {"error": impl.get("msg")})
     res = impl["res"]
@@ -295,8 +304,8 @@ def oracle_pair(case, impl):
 
 def run_compat(case):
     ga, gb = gu.build_grid(case["a"]), gu.build_grid(case["b"])
-    return {"ga": ga, "gb": gb, "compatible": bool(ga.compatible_with(gb)), "eq": bool(ga == gb),
-            "compatible_rev": bool(gb.compatible_with(ga))}
+    return {"ga": ga, "gb": gb, "compatible": safe(ga.compatible_with, gb), "eq": safe(ga.__eq__, gb),
+            "compatible_rev": safe(gb.compatible_with, ga)}
 
 
 def locset(g):
@@ -309,8 +318,8 @@ def oracle_compat(case, impl):
     if impl["compatible"] != same or impl["compatible_rev"] != same:
         return ("compatible_with <=> same location kind and same set of data locations",
                 {"compatible": impl["compatible"], "reverse": impl["compatible_rev"], "same_locations": same})
-    if impl["eq"] and not impl["compatible"]:
-        return ("equal grids are compatible", {})
+    if impl["eq"] is not False and impl["compatible"] is not True:
+        return ("equal grids are compatible", {"eq": impl["eq"], "compatible": impl["compatible"]})
     return None
 
 
@@ -418,8 +427,15 @@ def run(ctx, res):
         cases = [make_case(p, v) for p in pairs for v in VARIANTS]
         res.exhaustive = True
     else:
-        cases = [make_case(ctx.rng.choice(pairs), ctx.rng.choice(VARIANTS)) for _ in range(2500)]
-    compat = [gen_compat_case(ctx.rng) for _ in range(ctx.n(600, 6000))]
+        # stratified by dimension / ESRI so that the (many) 3-D pairs do not crowd out the rest
+        groups = {}
+        for p in pairs:
+            key = "esri" if "esri" in (p[0]["kind"], p[1]["kind"]) else len(gu.spec_dims(p[0]))
+            groups.setdefault(key, []).append(p)
+        cases = []
+        for key in sorted(groups, key=str):
+            cases += [make_case(ctx.rng.choice(groups[key]), ctx.rng.choice(VARIANTS)) for _ in range(1200)]
+    compat = [gen_compat_case(ctx.rng) for _ in range(ctx.n(1500, 6000))]
     check_cases(corpus() + cases + compat, res)
 
 
